@@ -32,7 +32,13 @@ def main():
         meta["confirmed"] = bool(meta["patch_applies"] and "82 passed" in meta["tests_with_change"] and dm.returncode != 0
                                  and base.returncode == 0)
         meta["checks"] = {}
-        for p in [prop] + more:
+        old = os.path.join(verif, "seeded", sid, "meta.json")
+        if os.path.exists(old):
+            try:
+                meta["checks"] = json.load(open(old)).get("checks", {})
+            except Exception:
+                pass
+        for p in ([prop] + more) if not os.environ.get("ONLY_MORE") else more:
             t0 = time.time()
             c = sh(f"cd {verif} && VERIF_REPO={d} ./run.sh {p} --tier quick 2>&1")
             lines = [l for l in c.stdout.split("\n") if l.startswith(("VIOLATION", "HARNESS", "KNOWN", "  site", "  what"))]
@@ -42,6 +48,11 @@ def main():
         os.makedirs(out, exist_ok=True)
         shutil.copy(os.path.join(src, "patch.diff"), out)
         shutil.copy(os.path.join(src, "demo.py"), out)
+        descf = os.path.join(verif, "seeded", "descriptions.json")
+        if os.path.exists(descf):
+            dsc = json.load(open(descf)).get(sid, {})
+            meta["change"] = dsc.get("change")
+            meta["needs_to_manifest"] = dsc.get("needs")
         meta["ran"] = f"tools/eval_seed.py {src} {sid} {prop} {' '.join(more)}: scratch copy of /repo, patch -p1, pytest, demo.py with/without change, ./run.sh <prop> --tier quick with VERIF_REPO=<scratch>"
         json.dump(meta, open(os.path.join(out, "meta.json"), "w"), indent=1)
         print(json.dumps({k: meta[k] for k in ("id", "confirmed", "tests_with_change", "demo_without_change_exit", "demo_with_change_exit")}))
